@@ -56,6 +56,10 @@ def p_expr(e, style=None):
   if k == 'neg':
     return '(-%s)' % p_expr(e[1], style)
   if k == 'fun':
+    if len(e) > 3 and e[3] == 'sub2':    # m[i, j] is Element(Element(m, i), j)
+      return '%s[%s, %s]' % (p_expr(e[2][0][2][0], style), p_expr(e[2][0][2][1], style), p_expr(e[2][1], style))
+    if len(e) > 3 and e[3] == 'sub':     # l[i] is Element(l, i)
+      return '%s[%s]' % (p_expr(e[2][0], style), p_expr(e[2][1], style))
     if e[1] == '!':
       return '!%s' % p_expr(e[2][0], style)
     return '%s(%s)' % (e[1], ', '.join(p_expr(x, style) for x in e[2]))
@@ -402,6 +406,10 @@ class Gen:
         return ('var', r.choice(cands))
       if ty in ('int', 'str'):
         return self.lit(ty)
+    if ty == 'int' and getattr(self, 'matrices', None) and r.random() < 0.25:
+      m, nrows = r.choice(self.matrices)
+      return ('fun', 'Element', [('fun', 'Element', [('var', m), ('int', r.randrange(nrows))]),
+                                 ('fun', 'Abs', [self.expr_of('int', bound, 0)])], 'sub2')
     if ty == 'int':
       k = r.random()
       if k < 0.08 and self.p('operators'):
@@ -419,6 +427,8 @@ class Gen:
         return self.if_of('int', bound, depth)
       if k < 0.7 and self.p('builtins'):
         lists = [v for v, t in bound.items() if t == ('list', 'int')]
+        if lists and r.random() < 0.4:
+          return ('fun', 'Element', [('var', r.choice(lists)), ('fun', 'Abs', [self.expr_of('int', bound, 0)])], 'sub')
         if lists:
           return ('fun', 'Size', [('var', r.choice(lists))])
         return ('fun', r.choice(['Greatest', 'Least']), [self.expr_of('int', bound, depth - 1), self.expr_of('int', bound, depth - 1)])
@@ -517,6 +527,13 @@ class Gen:
     tabs = self.tables()
     bound = {}
     props = []
+    self.matrices = []
+    if self.p('lists') and r.random() < 0.3:
+      # a variable holding a list of lists, read by the subscription m[i, j]
+      m = self.fresh('m')
+      rows = [[self.lit('int') for _ in range(3)] for _ in range(r.choice([2, 3]))]
+      props.append(('c', ('unify', ('var', m), ('list', [('list', row) for row in rows]))))
+      self.matrices.append((m, len(rows)))
     natoms = r.choice([1, 1, 2, 2, 3])
     if r.random() < self.pf.get('tableless', 0.06):
       # a rule that reads no table: constants, assignments and a guard that may well be false
@@ -575,7 +592,13 @@ class Gen:
     alts = []
     if r.random() < 0.5:
       for _ in range(r.choice([2, 2, 3])):
-        alts.append(('c', ('cond', self.cond_of(bound, 1))))
+        if r.random() < 0.25:     # an alternative that is a conjunction holding a further disjunction
+          inner = ('or', [('c', ('cond', self.cond_of(bound, 1))) for _ in range(r.choice([2, 2, 3]))])
+          parts = [('c', ('cond', self.cond_of(bound, 1))), inner]
+          r.shuffle(parts)
+          alts.append(('and', parts) if r.random() < 0.8 else inner)
+        else:
+          alts.append(('c', ('cond', self.cond_of(bound, 1))))
       return ('or', alts)
     # alternatives that each bind the same new variable
     ty = r.choice(['int', 'str'])
@@ -768,6 +791,7 @@ class Gen:
 
   def gen_func(self, name):
     """Injectible functional predicate F(a, b) = expr."""
+    self.matrices = []
     r = self.r
     argtypes = [r.choice(['int', 'int', 'str']) for _ in range(r.choice([1, 2]))]
     names = ['a', 'b'][:len(argtypes)]
